@@ -12,7 +12,11 @@
    return must equal the spec's and every instance must be exactly where its own calls put it (TLC judges).
    Directed traces put the states 0 and 2^30-1 under every method at several stream positions (the seed is
    obtained with the inverse step).  Float-valued results (random/randoms with bounds, gauss) are checked in
-   Python against the contract: [min,max), finite."""
+   Python against the contract: [min,max), finite.
+   "uniforms" events: random / randoms (positional, keyword; module level for instance 0) with
+   bounds on the grid of quarters (ints or floats; widths below, at and above 1, lower bounds negative, zero,
+   positive, up to +-2^20) where min+(max-min)*u is exact in floats: TLC demands the normalised value to be the
+   stream's and floor(4x) to be the spec's UniformCell, which is the contract [min,max)."""
 import json, math, os, pickle, random, subprocess, sys
 from .. import tlc, tracecheck
 
@@ -29,6 +33,24 @@ def prev(s, k=1):
 
 
 def limbs(x): return [x // B, x % B]
+
+
+Q = 4                      # grid of the bounds of the "uniforms" events: multiples of 1/4 (2^20*Q and Q*x stay far below 2^31 / 2^53)
+WIDTHS = [1, 2, 3, 4, 4, 4, 5, 7, 8, 12, 40, 378, 4096, 32768]      # in units of 1/Q: below, at and above the unit interval (4 = width 1.0)
+LOWS = [0, 0, 1, 2, 4, 6, 22, 36, 40, 4092, -1, -2, -4, -8, -12, -400, -4096, 4 * 2 ** 20 - 32768, -4 * 2 ** 20]
+
+
+def grid(v, as_int):
+    """Concrete rendering of the bound v/Q: an int where that is possible and asked for, else a float."""
+    return v // Q if as_int and v % Q == 0 else v / Q
+
+
+def rand_bounds(rng):
+    wd = rng.choice(WIDTHS); lo = rng.choice(LOWS)
+    if rng.random() < .3: lo = rng.randrange(-64, 64)
+    if rng.random() < .15: lo = -wd                      # max = 0
+    if lo + wd > Q * 2 ** 20: lo = Q * 2 ** 20 - wd
+    return dict(lo=lo, hi=lo + wd, lo_int=rng.random() < .5, hi_int=rng.random() < .5)
 
 
 def record(prog, rng_seed):
@@ -103,6 +125,21 @@ def record(prog, rng_seed):
                 lo, hi, n = call["min"], call["max"], call["n"]
                 xs = g.randoms(n, lo, hi); evs.append(dict(i=i, op="randoms", n=n, ret=[limbs(int(round((x - lo) / (hi - lo) * M)) % M) for x in xs]))
                 if len(xs) != n or not all(lo <= x < hi for x in xs): probs.append(("random:contract-bounds", "randoms(%d,%r,%r) returned %r" % (n, lo, hi, xs)))
+            elif op == "uniforms":    # bounds on the grid of 1/Q (spec: UniformCell): min = lo/Q, max = hi/Q, every float operation is exact there
+                n, lo, hi = call["n"], call["lo"], call["hi"]
+                mn, mx = grid(lo, call.get("lo_int")), grid(hi, call.get("hi_int"))
+                form = call.get("form", "plural")
+                if form == "single": xs = [g.random(mn, mx) for _ in range(n)]
+                elif form == "kw": xs = g.randoms(n, min=mn, max=mx)
+                else: xs = g.randoms(n, mn, mx)
+                xs = list(xs)
+                if len(xs) != n: probs.append(("randoms:count", "randoms(%d,%r,%r) returned %d values" % (n, mn, mx, len(xs))))
+                if not all(mn <= x < mx for x in xs): probs.append(("random:contract-bounds", "%s(%r,%r) [%s] returned %r: not in [min,max)" % ("random" if form == "single" else "randoms", mn, mx, form, xs)))
+                def norm(x):
+                    v = (x - lo / Q) / ((hi - lo) / Q) * M
+                    return limbs(int(v)) if v == int(v) and 0 <= v < M else [-1, 0]      # [-1,0] is no state: TLC rejects the event
+                def cell(x): c = math.floor(x * Q); return c if abs(c) < 2 ** 30 else 2 ** 30
+                evs.append(dict(i=i, op="uniforms", n=len(xs), lo=lo, hi=hi, ret=[norm(x) for x in xs], cell=[cell(x) for x in xs]))
         except Exception as e:
             probs.append(("%s:raises:%s" % (op, type(e).__name__), "%s%r raised %s: %s" % (op, {k: v for k, v in call.items() if k not in ("i", "op")}, type(e).__name__, e)))
             break
@@ -118,11 +155,12 @@ def rand_prog(rng, ncalls=20):
         if k in live: continue
         prog.append(dict(i=k, op="new", seed=rng.choice(seeds))); live.append(k)
     for _ in range(ncalls):
-        i = rng.choice(live); op = rng.choice(["random", "randoms", "randint", "randints", "shuffle", "choice", "choicew", "choicew", "gauss", "gauss", "pyrandom", "pickle", "new", "random2", "gausses", "randomsb"])
+        i = rng.choice(live); op = rng.choice(["random", "randoms", "randint", "randints", "shuffle", "choice", "choicew", "choicew", "gauss", "gauss", "pyrandom", "pickle", "new", "random2", "gausses", "randomsb", "uniforms", "uniforms"])
         if op == "random2": prog.append(dict(i=i, op="random", min=rng.choice([-3, 0, 5.5]), max=rng.choice([6, 7.25, 100])))
         elif op == "randoms": prog.append(dict(i=i, op=op, n=rng.randrange(0, 4)))
         elif op == "gausses": mu, sg = rng.choice([(0, 1), (5, 0), (-2, 3)]); prog.append(dict(i=i, op=op, n=rng.randrange(0, 4), mu=mu, sigma=sg))
         elif op == "randomsb": prog.append(dict(i=i, op=op, n=rng.randrange(0, 4), min=rng.choice([-3, 0, 5.5]), max=rng.choice([6, 7.25, 100])))
+        elif op == "uniforms": prog.append(dict(rand_bounds(rng), i=i, op=op, n=rng.randrange(0, 4), form=rng.choice(["plural", "plural", "single", "kw"])))
         elif op == "randint": a = rng.randrange(-5, 5); prog.append(dict(i=i, op=op, a=a, b=a + rng.randrange(0, 40)))
         elif op == "randints": a = rng.randrange(-5, 5); prog.append(dict(i=i, op=op, n=rng.randrange(0, 4), a=a, b=a + rng.randrange(0, 9)))
         elif op == "shuffle": prog.append(dict(i=i, op=op, n=rng.randrange(0, 7), inplace=rng.random() < .3, kind=rng.choice(["list", "tuple", "range", "iter", "gen"])))
@@ -151,7 +189,9 @@ def directed():
             pre = [dict(i=1, op="random")] * (pos - 1)
             for call in (dict(op="random"), dict(op="random", min=-3, max=7.25), dict(op="randint", a=-2, b=17), dict(op="randints", n=2, a=0, b=5), dict(op="shuffle", n=4), dict(op="shuffle", n=1, kind="gen"), dict(op="shuffle", n=1, kind="iter"), dict(op="shuffle", n=0, kind="gen"), dict(op="shuffle", n=2, kind="iter"),
                          dict(op="choice", n=3), dict(op="choicew", w=[0, 2, 1]), dict(op="choicew", w=[0, 0, 3], plain=True), dict(op="choicew", w=[1, 0]),
-                         dict(op="choicew", w=[2, 1, 0], plain=True), dict(op="choicew", w=[0, 3, 7], ids=[0, 1, 0]), dict(op="choicew", w=[1, 2, 3], ids=[1, 1, 1]), dict(op="gauss"), dict(op="randoms", n=2)):
+                         dict(op="choicew", w=[2, 1, 0], plain=True), dict(op="choicew", w=[0, 3, 7], ids=[0, 1, 0]), dict(op="choicew", w=[1, 2, 3], ids=[1, 1, 1]), dict(op="gauss"), dict(op="randoms", n=2),
+                         dict(op="uniforms", n=2, lo=0, hi=4), dict(op="uniforms", n=2, lo=4, hi=8, lo_int=True, hi_int=True), dict(op="uniforms", n=2, lo=-2, hi=2), dict(op="uniforms", n=1, lo=-4, hi=0, form="single"),
+                         dict(op="uniforms", n=2, lo=0, hi=40, form="kw"), dict(op="uniforms", n=2, lo=22, hi=29), dict(op="uniforms", n=2, lo=4 * 2 ** 20 - 4, hi=4 * 2 ** 20), dict(op="uniforms", n=2, lo=-4 * 2 ** 20, hi=-4 * 2 ** 20 + 1)):
                 progs.append([dict(i=1, op="new", seed=seed)] + pre + [dict(call, i=1), dict(i=1, op="randint", a=0, b=9)])
     # gauss: the second uniform critical too, and gauss after a pending value
     for crit in (0, M - 1):
